@@ -84,10 +84,16 @@ package remux
 //@   requires len(lcd.msg.Payload) < 1<<24 - 16 && (lcd.msg.Header.MsgTypeId == 8 || lcd.msg.Header.MsgTypeId == 9 || lcd.msg.Header.MsgTypeId == 18)
 //@   ensures [C01.lazy.once] !isnil(old(lcd.chunksWithoutSdf)) ==> result == old(lcd.chunksWithoutSdf)
 //@   ensures [C01.lazy.cache] result == lcd.chunksWithoutSdf
+//@   ensures [C01.lazy.chunked] isnil(old(lcd.chunksWithoutSdf)) ==> called(rtmp.Message2Chunks) && result == callresult(rtmp.Message2Chunks)
+//@   ensures [C01.lazy.meta.len] isnil(old(lcd.chunksWithoutSdf)) && lcd.msg.Header.MsgTypeId == 18 ==> callarg(rtmp.Message2Chunks, 1).MsgLen == uint32(len(callarg(rtmp.Message2Chunks, 0))) && callarg(rtmp.Message2Chunks, 1).Csid == 5 && callarg(rtmp.Message2Chunks, 1).TimestampAbs == lcd.msg.Header.TimestampAbs
+//@   ensures [C01.lazy.av.body] isnil(old(lcd.chunksWithoutSdf)) && lcd.msg.Header.MsgTypeId != 18 ==> callarg(rtmp.Message2Chunks, 0) == lcd.msg.Payload && callarg(rtmp.Message2Chunks, 1).MsgLen == lcd.msg.Header.MsgLen && callarg(rtmp.Message2Chunks, 1).TimestampAbs == lcd.msg.Header.TimestampAbs
 //@ end
 //@ func (*LazyRtmpChunkDivider).GetEnsureWithSdf
 //@   props C01
 //@   requires len(lcd.msg.Payload) < 1<<24 - 16 && (lcd.msg.Header.MsgTypeId == 8 || lcd.msg.Header.MsgTypeId == 9 || lcd.msg.Header.MsgTypeId == 18)
 //@   ensures [C01.lazy.once] !isnil(old(lcd.chunksWithSdf)) ==> result == old(lcd.chunksWithSdf)
 //@   ensures [C01.lazy.cache] result == lcd.chunksWithSdf
+//@   ensures [C01.lazy.chunked] isnil(old(lcd.chunksWithSdf)) ==> called(rtmp.Message2Chunks) && result == callresult(rtmp.Message2Chunks)
+//@   ensures [C01.lazy.meta.len] isnil(old(lcd.chunksWithSdf)) && lcd.msg.Header.MsgTypeId == 18 ==> callarg(rtmp.Message2Chunks, 1).MsgLen == uint32(len(callarg(rtmp.Message2Chunks, 0))) && callarg(rtmp.Message2Chunks, 1).Csid == 5 && callarg(rtmp.Message2Chunks, 1).TimestampAbs == lcd.msg.Header.TimestampAbs
+//@   ensures [C01.lazy.av.body] isnil(old(lcd.chunksWithSdf)) && lcd.msg.Header.MsgTypeId != 18 ==> callarg(rtmp.Message2Chunks, 0) == lcd.msg.Payload && callarg(rtmp.Message2Chunks, 1).MsgLen == lcd.msg.Header.MsgLen && callarg(rtmp.Message2Chunks, 1).TimestampAbs == lcd.msg.Header.TimestampAbs
 //@ end
